@@ -256,3 +256,36 @@ func TestEncryptHook(t *testing.T) {
 		}
 	}
 }
+
+// a number below the serialiser's own objects that is first defined by a later
+// revision is listed as free with generation 0 (not retired) until then
+func TestLateDefinition(t *testing.T) {
+	cat := obj.Dict{"Type": obj.Name("Catalog"), "Pages": obj.Ref{Num: 2}}
+	pages := obj.Dict{"Type": obj.Name("Pages"), "Kids": obj.Array{}, "Count": obj.Int(0)}
+	for _, kind := range []ser.Kind{ser.Table, ser.Stream} {
+		doc := &ser.Doc{Revisions: []ser.Revision{
+			{Kind: kind, Ops: []ser.Op{{Num: 1, Kind: ser.Define, Value: cat}, {Num: 2, Kind: ser.Define, Value: pages}, {Num: 7, Kind: ser.Define, Value: obj.Int(7)}},
+				Trailer: obj.Dict{"Root": obj.Ref{Num: 1}}},
+			{Kind: kind, Ops: []ser.Op{{Num: 4, Kind: ser.Define, Value: obj.Str("late")}, {Num: 5, Kind: ser.Free, Style: ser.Linked}},
+				Trailer: obj.Dict{"Root": obj.Ref{Num: 1}}},
+		}}
+		for seed := int64(0); seed < 60; seed++ {
+			c := ser.PickChoices(seed)
+			c.AutoFreeRetired = true
+			res, err := ser.RenderResult(doc, &ser.Options{Seed: seed, Choices: &c})
+			if err != nil {
+				t.Fatal(err)
+			}
+			if err := check(doc, res, false); err != nil {
+				t.Fatalf("seed %d: %v", seed, err)
+			}
+			f, _ := strict.Parse(res.Bytes)
+			if v, ok := f.Lookup(obj.Ref{Num: 4}); !ok || !obj.Equal(v, obj.Str("late")) {
+				t.Fatalf("seed %d: 4 0 R = %v %v", seed, v, ok)
+			}
+			if st := res.States[0][3]; st.Gen != 65535 || res.States[0][4].Gen != 0 {
+				t.Fatalf("seed %d: auto-free generations %d / %d", seed, st.Gen, res.States[0][4].Gen)
+			}
+		}
+	}
+}
